@@ -98,6 +98,13 @@ func init() {
 		Scen:   []ScenBudget{{"legacy", 2000, 80000}},
 	})
 	addCheck(&CheckSpec{
+		Property: "C16", Level: "exploration", Race: true, OwnsPanics: false,
+		Rule:   "race scenario built with -race: one service with per-resource groups, a shared group and Parallel resources (handlers write per-group scratch memory without locks), requests and query requests injected by the scheduler, 1-2 producer goroutines calling With/WithResource/WithGroup/QueryEvent, Reset/ResetAll/TokenEvent/TokenEventWithID/TokenReset and emitting events from foreign goroutines, optionally store.Handler and store.QueryHandler over badgerstore + QueryStore on real BadgerDB with mutator goroutines, an index querier calling Query and Flush, the library's own MemLogger or StdLogger, Shutdown at tape-chosen steps and up to two Serve/Shutdown cycles. The harness is hidden from the detector: its synchronisation is wrapped in runtime.RaceDisable, its shared state lives in //go:norace functions without maps, and the scheduler goroutine never acquires from tasks.",
+		Oracle: "the Go race detector's error count must not rise during a run; each report is attributed to its run and classified by the top go-res frame of its two stacks; reports without a go-res frame are counted as third-party, reports entirely inside the harness are simulator trouble (exit 2), never violations.",
+		Scen:   []ScenBudget{{"race", 1500, 40000}},
+		Assumptions: []string{"the race detector only sees conflicting accesses of the interleavings actually executed; serial execution is compensated by hiding the scheduler's hand-offs, so any two conflicting accesses the library leaves unordered in an explored schedule are reported"},
+	})
+	addCheck(&CheckSpec{
 		Property: "C07", Level: "exploration",
 		Rule:   "transport monitor on every Publish of the requests and core scenarios: results/models/collections/event payloads that are nil, nested, need escaping or cannot be marshalled; every meta combination on HTTP and non-HTTP requests; marshal failures and publish errors as injected faults.",
 		Oracle: "independent validator written from the RES protocol text: subject is a publishable NATS subject of a documented form (reply inbox handed out by the peer, event.<rid>.<name>, system.reset, system.tokenReset, conn.<cid>.token); payload has the documented shape for its kind (response with exactly one of result/resource/error, error with string code and message, meta only for HTTP requests, pre-response timeout:\"<ms>\", per-event fields).",
